@@ -133,8 +133,22 @@ struct Local {
     stats: Stats,
     vios: VioSet,
     succs: Vec<Succ>,
+    edges: Vec<(u32, u32, i32)>,
     /// canonical rendering of the observation of the call being evaluated (for replay checks)
     cur_obs: Option<String>,
+    class_counts: Vec<(u16, u64)>,
+}
+
+fn class_name(idx: usize) -> String {
+    let w = idx % 10;
+    let r = (idx / 10) % 10;
+    let rk = idx / 100;
+    let res = match rk {
+        0 => "InputEmpty".to_string(),
+        1 => "OutputFull".to_string(),
+        k => format!("Malformed({},{})", (k - 2) / 4, (k - 2) % 4),
+    };
+    format!("{} read{} written{}", res, r, w)
 }
 
 pub fn obs_canon(o: &DecObs, utf16: bool) -> String {
@@ -146,6 +160,7 @@ struct Succ {
     call: Call,
     fresh: bool,
     to: Result<u32, Arc<Key>>,
+    hash: u64,
     /// C08 weight (1 - 4*read for calls that do not end their chunk, -4*read otherwise);
     /// None when the call is outside the progress domain (capacity below minimum)
     weight: Option<i32>,
@@ -197,8 +212,11 @@ pub struct Explorer<'a> {
     chunks_switched: Vec<Vec<u8>>,
     nodes: Vec<NodeMeta>,
     keys: Vec<Arc<Key>>,
-    index: HashMap<Arc<Key>, u32>,
+    index: HashIndex,
     edges: Vec<(u32, u32, i32)>,
+    classified: std::sync::atomic::AtomicUsize,
+    shard: String,
+    node_seen: std::sync::Mutex<std::collections::HashSet<(Decoder, RefStream, Vec<DTok>, Vec<DTok>)>>,
 }
 
 fn build_chunks(syms: &[Vec<u8>], k: usize) -> Vec<Vec<u8>> {
@@ -231,7 +249,7 @@ impl<'a> Explorer<'a> {
             }
         }
         let chunks_undecided = if cfg.syms_undecided.is_empty() { vec![] } else { build_chunks(&all, cfg.k) };
-        Explorer { cfg, chunks: build_chunks(&cfg.syms, cfg.k), chunks_undecided, chunks_switched: if cfg.syms_switched.is_empty() { vec![] } else { build_chunks(&cfg.syms_switched, cfg.k) }, nodes: vec![], keys: vec![], index: HashMap::new(), edges: vec![] }
+        Explorer { cfg, chunks: build_chunks(&cfg.syms, cfg.k), chunks_undecided, chunks_switched: if cfg.syms_switched.is_empty() { vec![] } else { build_chunks(&cfg.syms_switched, cfg.k) }, nodes: vec![], keys: vec![], index: HashIndex::new(), edges: vec![], classified: std::sync::atomic::AtomicUsize::new(0), shard: format!("xdec/{}", cfg.label()), node_seen: std::sync::Mutex::new(std::collections::HashSet::new()) }
     }
 
     fn query(&self, dec: &Decoder, n: usize) -> Option<usize> {
@@ -435,6 +453,11 @@ impl<'a> Explorer<'a> {
     /// Decide which property a divergence belongs to (DESIGN 3.5-4).
     fn classify(&self, l: &mut Local, what: &str, parent: u32, call: &Call) {
         let cfg = self.cfg;
+        // classification replays whole histories: do it for the first few divergences only
+        if self.classified.fetch_add(1, std::sync::atomic::Ordering::Relaxed) >= 24 {
+            l.vios.count_only(cfg.tag_chunk, "divergence-not-classified-after-the-first-24");
+            return;
+        }
         let mut calls: Vec<Call> = self.path(parent).into_iter().map(|(c, _)| c).collect();
         calls.push(call.clone());
         let closed = Self::close_history(cfg, &calls);
@@ -521,7 +544,26 @@ impl<'a> Explorer<'a> {
                 return;
             }
         };
-        l.stats.class(&format!("{} read{} written{}", o.res.short(), o.read.min(9), o.written.min(9)));
+        {
+            let rk = match o.res {
+                Res::InputEmpty => 0usize,
+                Res::OutputFull => 1,
+                Res::Malformed(len, after) => 2 + ((len.min(5) as usize) * 4 + after.min(3) as usize),
+            };
+            let ci = ((rk * 10 + o.read.min(9)) * 10 + o.written.min(9)) as u16;
+            match l.class_counts.iter_mut().find(|e| e.0 == ci) {
+                Some(e) => e.1 += 1,
+                None => l.class_counts.push((ci, 1)),
+            }
+        }
+        {
+            let f = Fnv::new().bytes(src).u(cap as u64).b(last as u8).u(o.read as u64).u(o.written as u64).bytes(&o.out8).u16s(&o.out16).s(&o.res.short()).b(match o.had_errors {
+                None => 2,
+                Some(b) => b as u8,
+            });
+            describe(|| format!("{} src {} cap {} last {} -> {}", cfg.label(), hex(src), cap, last, obs_canon(&o, cfg.sink.is_utf16())));
+            l.stats.dig(&self.shard, f);
+        }
         // ---- C06 contract
         let mut broken = false;
         if o.read > src.len() {
@@ -775,11 +817,25 @@ impl<'a> Explorer<'a> {
         let nlast = if rem.is_empty() && !last { false } else { nlast };
         let nk = Key { dec, rs, di, ds, rem, last: nlast && !fin, fin };
         let weight = if in_domain { Some(if o.res == Res::InputEmpty { -4 * r as i32 } else { 1 - 4 * r as i32 }) } else { None };
-        let to = match self.index.get(&nk) {
-            Some(&i) => Ok(i),
-            None => Err(Arc::new(nk)),
-        };
-        l.succs.push(Succ { parent: id, call, fresh, to, weight });
+        let h = hash_of(&nk);
+        match self.index.find(h, |i| *self.keys[i as usize] == nk) {
+            Some(i) => {
+                // known target: nothing to merge; remember the edge for the progress graph only
+                if self.cfg.or.graph {
+                    if let Some(w) = weight {
+                        l.edges.push((id, i, w));
+                    }
+                }
+            }
+            None => {
+                // new in this level: drop duplicates found by this work item already
+                let dup = l.succs.iter().rev().take(64).any(|s| s.hash == h && matches!(&s.to, Err(k) if **k == nk));
+                if dup && !self.cfg.or.graph {
+                    return;
+                }
+                l.succs.push(Succ { parent: id, call, fresh, to: Err(Arc::new(nk)), weight, hash: h })
+            }
+        }
     }
 
     fn twin(&self, l: &mut Local, parent: u32, call: &Call) {
@@ -833,19 +889,27 @@ impl<'a> Explorer<'a> {
         }
     }
 
-    fn expand(&self, id: u32) -> Local {
+    fn expand(&self, id: u32, lo: usize, hi: usize) -> Local {
         let mut l = Local::default();
         l.stats = Stats::new();
         let key = self.keys[id as usize].clone();
         if key.fin {
+            if lo != 0 {
+                return l;
+            }
             if self.cfg.or.reuse_finished {
                 self.reuse_finished(&mut l, id, &key);
             }
             return l;
         }
-        self.node_oracles(&mut l, id, &key);
+        if lo == 0 {
+            self.node_oracles(&mut l, id, &key);
+        }
         let aligns: &[(u8, u8)] = if self.cfg.or.aligns { &[(0, 0), (1, 1), (1, 0), (7, 15), (15, 7), (8, 8)] } else { &[(0, 0)] };
         if key.in_chunk() {
+            if lo != 0 {
+                return l;
+            }
             let src = key.rem.clone();
             for cap in self.caps(&key, &src, key.last) {
                 self.transition(&mut l, id, &key, &src, key.last, false, cap, 0, 0);
@@ -858,7 +922,7 @@ impl<'a> Explorer<'a> {
             } else {
                 &self.chunks
             };
-            for ch in chunks {
+            for ch in chunks.iter().skip(lo).take(hi - lo) {
                 for last in [false, true] {
                     let caps = self.caps(&key, ch, last);
                     for cap in caps {
@@ -877,6 +941,18 @@ impl<'a> Explorer<'a> {
     fn node_oracles(&self, l: &mut Local, id: u32, key: &Key) {
         let cfg = self.cfg;
         l.cur_obs = None;
+        if !cfg.or.ladder && cfg.or.latin1.is_none() {
+            return;
+        }
+        // the node-level oracles depend on (converter state, reference state, debt) only
+        {
+            let k = (key.dec.clone(), key.rs.clone(), key.di.clone(), key.ds.clone());
+            let mut seen = self.node_seen.lock().unwrap();
+            if !seen.insert(k) {
+                return;
+            }
+        }
+        l.stats.nontrivial += 1;
         if cfg.or.ladder {
             let max = usize::MAX;
             let ladder: Vec<usize> = vec![0, 1, 2, 3, 1 << 16, 1 << 31, 1 << 32, max / 4 - 1, max / 4, max / 4 + 1, max / 3 - 1, max / 3, max / 3 + 1, max / 2 - 1, max / 2, max / 2 + 1, max - 3, max - 2, max - 1, max];
@@ -928,12 +1004,14 @@ impl<'a> Explorer<'a> {
             crate::spec::dec::Used::Utf16Le => Kind::Utf16Le,
         };
         let never = matches!(used_kind, Kind::Utf16Be | Kind::Utf16Le | Kind::Replacement);
-        let want = if !key.rs.decided {
-            Want::MustNone
-        } else if never {
+        let want = if never && key.rs.decided {
             Want::MustNone
         } else if !key.di.is_empty() {
+            // the implementation has legitimately run ahead of the bytes acknowledged so far
+            // (it peeked at unread input or at the end of the stream): no requirement
             Want::Either
+        } else if !key.rs.decided {
+            Want::MustNone
         } else if key.rs.dec.pending_len() > 0 || !key.ds.is_empty() {
             Want::MustNone
         } else if key.rs.dec.is_initial() {
@@ -1066,21 +1144,46 @@ impl<'a> Explorer<'a> {
         self.keys.push(root.clone());
         self.nodes.push(NodeMeta { parent: 0, call: Call::new(&[], 0, false), fresh: true, depth: 0 });
         self.keys.push(root.clone());
-        self.index.insert(root, 1);
+        self.index.insert(hash_of(&*root), 1);
         let mut frontier: Vec<u32> = vec![1];
         let mut depth = 0u32;
         while !frontier.is_empty() {
             depth += 1;
-            let locals: Vec<Local> = par_map(&frontier, cfg.threads, |&id| self.expand(id));
+            let mut items: Vec<(u32, usize, usize)> = vec![];
+            let maxchunks = self.chunks.len().max(self.chunks_undecided.len()).max(self.chunks_switched.len());
+            for &id in &frontier {
+                let k = &self.keys[id as usize];
+                if k.fin || k.in_chunk() {
+                    items.push((id, 0, usize::MAX));
+                } else {
+                    let mut lo = 0;
+                    while lo < maxchunks {
+                        items.push((id, lo, lo + 32));
+                        lo += 32;
+                    }
+                }
+            }
+            let t_par = std::time::Instant::now();
+            let locals: Vec<Local> = par_map(&items, cfg.threads, |&(id, lo, hi)| self.expand(id, lo, hi));
+            let d_par = t_par.elapsed().as_secs_f64();
+            let t_merge = std::time::Instant::now();
+            let n_items = items.len();
             let mut next: Vec<u32> = vec![];
+            let mut class_total = vec![0u64; 26 * 100];
             for l in locals {
+                for (i, c) in l.class_counts.iter() {
+                    class_total[*i as usize] += c;
+                }
                 stats.merge(&l.stats);
                 vios.merge(l.vios);
+                if cfg.or.graph {
+                    self.edges.extend_from_slice(&l.edges);
+                }
                 for s in l.succs {
                     let to = match s.to {
                         Ok(i) => i,
-                        Err(k) => match self.index.get(&k) {
-                            Some(&i) => i,
+                        Err(k) => match self.index.find(s.hash, |i| *self.keys[i as usize] == *k) {
+                            Some(i) => i,
                             None => {
                                 let i = self.nodes.len() as u32;
                                 if k.fin {
@@ -1088,7 +1191,7 @@ impl<'a> Explorer<'a> {
                                 }
                                 self.nodes.push(NodeMeta { parent: s.parent, call: s.call.clone(), fresh: s.fresh, depth });
                                 self.keys.push(k.clone());
-                                self.index.insert(k, i);
+                                self.index.insert(s.hash, i);
                                 next.push(i);
                                 i
                             }
@@ -1101,7 +1204,20 @@ impl<'a> Explorer<'a> {
                     }
                 }
             }
+            for (i, c) in class_total.iter().enumerate() {
+                if *c > 0 {
+                    *stats.classes.entry(class_name(i)).or_insert(0) += c;
+                }
+            }
+            if std::env::var("VERIF_PROF").is_ok() {
+                eprintln!("level {} items {} par {:.3}s merge {:.3}s nodes {}", depth, n_items, d_par, t_merge.elapsed().as_secs_f64(), self.nodes.len());
+            }
             stats.max_depth = depth as u64;
+            if vios.total() >= 500 {
+                stats.exhaustive = false;
+                stats.caps_hit.push(format!("{}: exploration stopped after depth {} because {} violations were already recorded", cfg.label(), depth, vios.total()));
+                break;
+            }
             if self.nodes.len() > cfg.max_states {
                 stats.exhaustive = false;
                 stats.caps_hit.push(format!("{}: state cap {} reached at depth {}", cfg.label(), cfg.max_states, depth));
